@@ -20,7 +20,7 @@ RULE = ('case = one history (sequence of encrypt/protect operations in one proce
         'distinct = distinct history descriptors; the evidence also counts distinct secret values observed')
 ASSUMPTIONS = ['unpredictability of os.urandom / OpenSSL RNG is not decidable by monitoring: freshness, size and provenance are observed',
                'ECDH ephemeral keys and RSA padding come from OpenSSL and are visible only through outputs']
-MIN_COUNTERS = {'quick': {'operations': 180, 'session_keys_checked': 120, 'prefixes_checked': 120, 'salts_checked': 40, 'ivs_checked': 15, 'ephemerals_checked': 60, 'urandom_calls_seen': 300, 'reprotect_operations': 5, 'chained_recipient_operations': 10, 'encryptions_with_long_lived_key_object': 60, 'encryptions_of_a_long_lived_message_object': 80, 'encryptions_with_a_caller_supplied_session_key': 100},
+MIN_COUNTERS = {'quick': {'operations': 180, 'session_keys_checked': 120, 'prefixes_checked': 120, 'salts_checked': 40, 'ivs_checked': 15, 'ephemerals_checked': 60, 'urandom_calls_seen': 300, 'reprotect_operations': 5, 'chained_recipient_operations': 10, 'encryptions_with_long_lived_key_object': 60, 'encryptions_of_a_long_lived_message_object': 80, 'encryptions_with_a_caller_supplied_session_key': 100, 'wrong_size_session_keys_offered': 100},
                 'thorough': {'operations': 3000}}
 BUDGET = {'quick': (600, 1500), 'thorough': (1800, 3600)}
 TECHNIQUE = 'runtime monitoring: history monitor with interposed os.urandom (recording proxy) + reference extraction of secrets from outputs; freshness/size/provenance invariants'
@@ -171,6 +171,23 @@ def run_case(ctx, d):
                                 elif e.tag == 1:
                                     # RSA: the padded block is random, so the encrypted session key never repeats either
                                     check(ctx, seen, 'ephemeral', e.body[10:], None, None, dict(op, rc=rc, n=n), i)
+                    # a caller-supplied key of another size (one that a sibling cipher of the same family would take) is never put to use
+                    for wl in sorted({5, 8, 16, 24, 32, 56} - {sym.keylen(cid)}):
+                        bad = bytes((3 * j + 5) & 0xFF for j in range(wl))
+                        for how in ('key', 'pass'):
+                            ctx.count('wrong_size_session_keys_offered')
+                            try:
+                                if how == 'key':
+                                    k_, m_ = encwork.recipient(op['rcs'][-1])
+                                    e_ = k_.pubkey.encrypt(msg, cipher=calg, sessionkey=bad)
+                                    v_ = encwork.ref_open(bytes(e_), [('key', m_)])
+                                else:
+                                    e_ = msg.encrypt(PWS[0], cipher=calg, sessionkey=bad)
+                                    v_ = encwork.ref_open(bytes(e_), [('pass', PWS[0].encode('utf-8'))])
+                            except Exception as ex:
+                                ctx.outcome('wrong_size_session_key_refused:' + type(ex).__name__)
+                                continue
+                            ctx.fail('wrong-size-session_key', {'op': dict(op, how=how), 'len': wl, 'expected': sym.keylen(cid), 'supplied_by': 'caller'})
                     continue
                 if op['op'] == 'enc_key':
                     k, m = encwork.recipient(op['rc'])
